@@ -235,6 +235,15 @@ func (c *Container) Decorate(decorator interface{}, opts ...DecorateOption) erro
 //
 // Similar to a provider, the decorator function gets called *at most once*.
 func (s *Scope) Decorate(decorator interface{}, opts ...DecorateOption) error {
+	dtype := reflect.TypeOf(decorator)
+	if dtype == nil {
+		return newErrInvalidInput("can't decorate with an untyped nil", nil)
+	}
+	if dtype.Kind() != reflect.Func {
+		return newErrInvalidInput(
+			fmt.Sprintf("must provide decorator function, got %v (type %v)", decorator, dtype), nil)
+	}
+
 	var options decorateOptions
 	for _, opt := range opts {
 		opt.apply(&options)
